@@ -103,6 +103,12 @@ void highCase(Ctx &c, Rng &g) {
     }
     if (s.isZero() != model::dzerop(ds))
       c.violation("C15", "high-order/isZero/order" + std::to_string(o), ctx);
+    {
+      const std::string lie = predicateNearMisses(s, g);
+      if (!lie.empty())
+        c.violation("C15", "high-order/near-miss/order" + std::to_string(o), ctx + ": " + lie);
+      c.count("pred:near-misses");
+    }
     // ---- C07 linear forms
     auto lin = [&](const Den &d, const AbsM &a, size_t k0, size_t k1, R &ex, R &S) {
       ex = 0;
